@@ -118,7 +118,8 @@ def collect(ctx: Ctx, profile: str):
     clear_typelib_caches()
     cfgs = [("default", None, None), ("stdjson", std_dumps, std_loads), ("tag", tag_dumps, tag_loads), ("default", None, None)]
     events, meta = [], []
-    byteslike = [({"k": "prim", "n": "bytes"}, [b"", b"abc", b"\xff\x00{"]), ({"k": "prim", "n": "bytearray"}, [bytearray(b"ab"), bytearray()])]
+    byteslike = [({"k": "prim", "n": "bytes"}, [b"", b"abc", b"\xff\x00{", b"\xef\xbb\xbfabc", b" [1, 2]\n", b"\xef\xbb\xbf"]),
+                 ({"k": "prim", "n": "bytearray"}, [bytearray(b"ab"), bytearray(), bytearray(b"\xef\xbb\xbf{}")])]
     work = [(T, None) for T in types if str_keyed(T, defs) and not composite_key(T, defs)] + byteslike
     for T, fixed_vals in work:
         is_bytes = fixed_vals is not None
